@@ -23,6 +23,9 @@ from common import (MachineryError, Verdict, parse_tla, run_tlc, require_tlc_ok,
                     write_evidence, STD_ASSUMPTIONS)
 
 OWNER = {
+    # the temperature of the target a kernel is handed is the temperature of the stage it mutates
+    # (the final stage after a capped schedule included)
+    "C05": {"KernelTemperature"},
     "C06": {"StrictlyIncreasing", "InUnit", "EndsAtOneOrCap", "FixedExactlyN", "CapHonoured",
             "FloorHonoured", "NeverRaises"},
     "C07": {"AdaptiveMaximal"},
@@ -701,6 +704,29 @@ def corpus_resume_schedule(tier, seed, rnd):
             specs.append(_mk(k, "resume", {"cfg": c, "fault_k": fk, "route": rnd.choice(["bytes", "dict", "path"]),
                                            "min_step_resume": rnd.choice([0.2, 0.35, 0.5])})); k += 1
     return [dict(x, id="m" + x["id"]) for x in specs]
+
+
+def corpus_kernel_temperature(tier, seed, rnd):
+    """C05: every stage of a run hands its kernel the target at the stage's own temperature - ordinary
+    runs, fixed schedules, and schedules cut by max_n_steps below 1 followed by the final enlargement."""
+    specs = []
+    k = 0
+    for i in range(24 if tier == "quick" else 400):
+        c = dict(N=[6, 8, 12][i % 3], width=[0.05, 0.1, 0.3, 1.0][i % 4], seed=seed * 19 + i, mcmc_steps=1,
+                 sampler=["minipcn_smc", "minipcn_smc", "emcee_smc"][i % 3], precond=["none", "default", "affine"][(i // 3) % 3])
+        kind = i % 4
+        if kind == 0 and c["sampler"] == "minipcn_smc":
+            c.update(min_step=[1e-3, 0.05][(i // 4) % 2], max_n_steps=[1, 2, 3][(i // 8) % 3])
+        elif kind == 1:
+            c.update(adaptive=False, n_steps=[1, 2, 3][(i // 4) % 3])
+        elif kind == 2 and c["sampler"] == "minipcn_smc":
+            c.update(max_n_steps=[2, 4][(i // 4) % 2])
+        if i % 2 == 0:
+            c["n_final"] = c["N"] + [3, c["N"]][(i // 2) % 2]
+            if i % 4 == 0:
+                c["n_final_steps"] = 2
+        specs.append(_mk(k, "single", {"cfg": c})); k += 1
+    return [dict(x, id="t" + x["id"]) for x in specs]
 
 
 def corpus_file(tier, seed, rnd):
